@@ -74,7 +74,7 @@ Print Assumptions C16_ramp_values.
 Theorem C16_ramp_endpoints :
   forall (d : Z) (a b : Qc),
     (2 <= d)%Z -> ramp_sample QN d a b 0 = a /\ ramp_sample QN d a b (d - 1) = b.
-Proof. intros d a b H. exact (conj (ramp_first d a b H) (ramp_last d a b H)). Qed.
+Proof. exact ramp_endpoints. Qed.
 Print Assumptions C16_ramp_endpoints.
 
 (** ** indices and slices follow Python list semantics *)
